@@ -7,10 +7,10 @@ import re
 
 from ..cfg import CFG, forward, ordered
 from ..effects import EffectAnalysis
-from ..model import AnalysisError, unparse
+from ..model import AnalysisError, FuncInfo, unparse
 from ..normalize import expanded, single_assignments
 from ..report import RuleResult
-from ._c15_sem import (dependency_table, group_switch_denials, layers, objects_of, pair_membership_sites, requires_table,
+from ._c15_sem import (dependency_table, expand_context_managers, group_switch_denials, layers, objects_of, pair_membership_sites, requires_table,
                        shared_root, silent_kinds)
 from ._c15_sym import Executor, literal_elements
 
@@ -63,6 +63,25 @@ def make_analysis(ctx):
     subs = [S for S in p.subclasses(BV, strict=True)]
 
     defs_cache: dict = {}
+    holder: dict = {}
+    fresh_names: dict = {}
+
+    def fresh_everywhere(attr):
+        if attr not in fresh_names:
+            ana = holder["ana"]
+            defs = [(c, c.own(attr)) for c in p.classes if c.module in mods and c.own(attr) is not None]
+            ok = bool(defs)
+            for c, (kind, obj) in defs:
+                if kind != "prop" or obj.getter is None:
+                    ok = False
+                    break
+                env, _ = ana.env(obj.getter, c)
+                rets = [r.value for r in ast.walk(obj.getter.node) if isinstance(r, ast.Return) and r.value is not None]
+                if not rets or not all(t[0] in ("fresh", "copy", "box") for r in rets for t in ana.eval(r, env, obj.getter, c)):
+                    ok = False
+                    break
+            fresh_names[attr] = ok
+        return fresh_names[attr]
 
     def dynamic(fn, call):
         # self.validators[val](name, value, validations[val]) in InputValidation.validate — also through a temporary
@@ -70,6 +89,19 @@ def make_analysis(ctx):
         if id(fn.node) not in defs_cache:
             defs_cache[id(fn.node)] = single_assignments(fn.node)
         f = expanded(call.func, fn.node, defs_cache[id(fn.node)])
+        # a method of the library's own dict / list subclasses on a table built here (`t = SetDict(); t.update(x)`): not the builtin of that
+        # name — SetDict.update writes the merged sets back into the dictionary it is GIVEN
+        if isinstance(f, ast.Attribute) and isinstance(f.value, ast.Call) and isinstance(f.value.func, ast.Name):
+            r = p.resolve_name(fn.module, f.value.func.id)
+            if r and r[0] == "class" and r[1] in own_containers:
+                m = r[1].lookup(f.attr)
+                if m and m[1] == "method":
+                    # arguments that are `<object>.<property>` where every class of the scope defining that name defines a property
+                    # building a new object per access: nothing persistent is handed over
+                    args = [expanded(a, fn.node, defs_cache[id(fn.node)]) for a in call.args]
+                    if args and all(isinstance(a, ast.Attribute) and fresh_everywhere(a.attr) for a in args):
+                        return []
+                    return [(m[2], {("fresh",)})]
         if isinstance(f, ast.Attribute) and f.attr in ("validate", "__call__"):
             f = f.value
         table = None
@@ -87,7 +119,25 @@ def make_analysis(ctx):
             return out
         return None
 
-    return EffectAnalysis(p, scope=mods, cha_scope=mods, max_depth=6 if ctx.tier == "quick" else 14, dynamic_calls=dynamic)
+    own_containers = [c for c in p.classes if c.module is not None and c.module not in mods
+                      and any((b if isinstance(b, str) else b.name) in ("dict", "list", "set") for b in c.mro[1:])]
+    extra = {m for c in own_containers for m in c.methods.values()}
+
+    class Analysis(EffectAnalysis):
+        """The methods of those container classes are summarised although their module is outside the scope of the rule."""
+
+        def summary(self, fn, K=None, depth=0, stack=()):
+            if fn in extra and fn.module not in self.scope:
+                saved = self.scope
+                self.scope = set(saved) | {fn.module}
+                try:
+                    return super().summary(fn, K, depth, stack)
+                finally:
+                    self.scope = saved
+            return super().summary(fn, K, depth, stack)
+
+    holder["ana"] = Analysis(p, scope=mods, cha_scope=mods, max_depth=6 if ctx.tier == "quick" else 14, dynamic_calls=dynamic)
+    return holder["ana"]
 
 
 _ACC_GROW = ("append", "extend", "insert", "add", "update", "setdefault", "__setitem__")
@@ -281,11 +331,32 @@ def rule_pure(ctx) -> RuleResult:
     if len(eps) < 40:
         raise AnalysisError(f"C15.PURE: only {len(eps)} validation entry points found")
     accepted = set()
+    mods = scope_modules(p)
+    fresh_memo: dict = {}
+
+    def fresh_property(K, name):
+        if (K, name) not in fresh_memo:
+            m = K.lookup(name)
+            ok = False
+            if m and m[1] == "prop" and m[2].getter is not None:
+                g = m[2].getter
+                env, _ = ana.env(g, K)
+                rets = [r.value for r in ast.walk(g.node) if isinstance(r, ast.Return) and r.value is not None]
+                ok = bool(rets) and all(t[0] in ("fresh", "copy", "box") for r in rets for t in ana.eval(r, env, g, K))
+            fresh_memo[(K, name)] = ok
+        return fresh_memo[(K, name)]
+
     for fn, K in eps:
         effs = ana.summary(fn, K)
         bad = []
         for e in sorted(effs, key=lambda e: (e.where, str(e.target))):
             ofn, otarget, otext = e.origin
+            if e.target[0] == "field" and fresh_property(K, e.target[1]):
+                continue  # `self.<property>` whose getter builds a new object on every access: nothing persistent is touched
+            if ofn.module not in mods and ofn.cls is not None and e.target[0] == "field":
+                # reached through a method of one of the library's own container classes (SetDict.update rewrites its argument)
+                bad.append((e, fn.cls.name, fn.prop or fn.name, f"{e.kind} self.{e.target[1]} through {ofn.cls.name}.{ofn.name}", fn.where))
+                continue
             # accumulator idiom, judged at the outermost function of the owning class on the call chain
             if otarget[0] == "field" and otarget[2] == 0 and ofn.cls is not None and (e.kind == "mutate" or _is_reset_store(otext, otarget[1]) or _is_grow_store(otext, otarget[1])):
                 owner = next((f for f in e.chain if f.cls is not None and (f.cls is ofn.cls or ofn.cls in f.cls.mro)), ofn)
@@ -362,6 +433,10 @@ def rule_commit(ctx) -> RuleResult:
         # private helpers expanded in place: a validation or a store moved into / out of a helper is seen where it happens
         fn = ctx.view(fn0)
         sn = fn.self_name
+        # `with self.<contextmanager method>():` written out (set-up, block, clean-up) so that an override / restore idiom is judged
+        # the same whether it is in line or a reusable context manager
+        if any(isinstance(x, (ast.With, ast.AsyncWith)) for x in ast.walk(fn.node)):
+            fn = FuncInfo(name=fn.name, module=fn.module, node=expand_context_managers(fn.node, fn.cls, sn), cls=fn.cls, kind=fn.kind, prop=fn.prop)
         defs = single_assignments(fn.node)
         params = [x for x in fn.params if x != sn]
 
